@@ -15,7 +15,7 @@ package gaussian
 //@   props C14
 //@   fp-abstract
 //@   requires GJclaim == 1 ==> (jitter == 0.0 || (jitterConsts(jitter) && GJin == GJout))
-//@   modifies nothing
+//@   modifies G12R, G12E
 //@   loop 0 invariant -1 <= rangeindex && rangeindex < len(weights)
 //@   ensures [runnable] result.1 == nil ==> result.0 != nil && result.0.Rate != nil && result.0.IterationDuration > 0
 //@   ensures [rejected] result.1 != nil ==> result.0 == nil
